@@ -537,7 +537,17 @@ class FuncWalker:
 
     def s_Break(self, s, st):
         if self.break_states:
-            self.break_states[-1].append(st.copy())
+            b = st.copy()
+            # which iteration's values survive the loop is decided by the condition under which we break: every variable that
+            # varies with the iteration becomes control-dependent on it (for k, f in TABLE: if key == k: break -> f depends on key)
+            if self.loop_stack:
+                itok = 'ITER:%d' % self.loop_stack[-1]
+                c = self._ctl()
+                if c:
+                    for k, v in list(b.env.items()):
+                        if itok in v:
+                            b.env[k] = v | c
+            self.break_states[-1].append(b)
         st = st.copy()
         st.dead = True
         return st
